@@ -1,7 +1,13 @@
 #!/bin/bash
-# offline setup: regenerate the source-derived Lean files, build every model, theorem and the driver
-set -e
+# offline setup: regenerate the source-derived Lean files, build every model, theorem and the per-property drivers.
+# A property whose files do not build must not prevent the others from being built (each check rebuilds its own
+# targets anyway and reports a broken build as a broken obligation of THAT property only).
 cd "$(dirname "$0")"
 export PYTHONPATH="$PWD/harness:$PYTHONPATH" PYTHONDONTWRITEBYTECODE=1
-/venv/bin/python harness/regen_all.py
-cd lean && lake build TdVerif driver
+/venv/bin/python harness/regen_all.py || true
+cd lean
+lake build TdVerif || echo "setup: the root library did not build completely (see above); building the per-property targets one by one"
+for i in $(seq -w 1 20); do
+  lake build TdVerif.Props.C$i driver_c$i >/dev/null 2>&1 || echo "setup: WARNING property C$i does not build"
+done
+exit 0
